@@ -120,8 +120,13 @@ func c03Judge(w *mon.W, c c03Case) {
 	rng := w.Rng
 	n1, n2 := len(c.X1), len(c.X2)
 	T, ties := pooledTies(c.X1, c.X2)
-	limU, limT := stats.MannWhitneyExactLimit, stats.MannWhitneyTiesExactLimit
-	exact := exactApplies(n1, n2, ties)
+	// the limits as the caller configured them (not as the variables read
+	// now: a library that rewrites them must not take the oracle along)
+	limU, limT := c.LimU, c.LimT
+	exact := n1 <= limU && n2 <= limU
+	if ties {
+		exact = n1 <= limT && n2 <= limT
+	}
 	cfg := fmt.Sprintf("limits(%d,%d)", limU, limT)
 	w.Distinct(mon.NewHasher().Fs(c.X1).Fs(c.X2).I(limU).I(limT).Sum())
 
@@ -176,7 +181,7 @@ func c03Judge(w *mon.W, c c03Case) {
 			tab := uCache.Get(T, n1)
 			pl, pd, pg := exactP(tab, twoU)
 			want = map[stats.LocationHypothesis]float64{stats.LocationLess: pl, stats.LocationDiffers: pd, stats.LocationGreater: pg}[alt]
-			if alt == stats.LocationDiffers && ties && math.Abs(res.P-want) > 1e-9 && math.Abs(res.P-d3Signature(tab, twoU)) <= 1e-12 {
+			if alt == stats.LocationDiffers && ties && math.Abs(res.P-want) > 1e-9*want+1e-12 && math.Abs(res.P-d3Signature(tab, twoU)) <= 1e-12 {
 				w.Known("D3", "P-two-sided-ties", fmt.Sprintf("%s exact two-sided P=%.12g, true %.12g (n1=%d n2=%d U=%v)", cfg, res.P, want, n1, n2, res.U), c)
 				outs[ai].res = nil // excluded from the law checks below
 				continue
@@ -189,7 +194,10 @@ func c03Judge(w *mon.W, c c03Case) {
 		if !(res.P >= 0 && res.P <= 1) {
 			w.Violate("P-range", fmt.Sprintf("%s %s alt=%v: P=%v outside [0,1]", cfg, method, alt, res.P), c)
 		}
-		if !w.Err("P-"+method, math.Abs(res.P-want), 1e-9) {
+		// 1e-9 relative plus the rounding noise of a probability formed as
+		// 1-(other tail) (see C01): tiny p-values are judged, not waved through
+		w.HitIf(want > 4e-12 && want < 1e-9, "P-in-(4e-12,1e-9)/"+method)
+		if !w.Err("P-"+method, math.Abs(res.P-want), 1e-9*want+1e-12) {
 			w.Violate("P-"+method, fmt.Sprintf("%s alt=%v n1=%d n2=%d ties=%v U=%v: P=%.12g, the %s method gives %.12g", cfg, alt, n1, n2, ties, res.U, res.P, method, want), c)
 		}
 		if w.WantSample() {
@@ -315,7 +323,9 @@ func monotoneMap(rng *mon.Rand, x1, x2 []float64) (m1, m2 []float64, name string
 	return m1, m2, name, true
 }
 
-// c03Pair draws a sample pair. density: 0 none, 1 low, 2 high, 3 all equal, 4 one sample constant.
+// c03Pair draws a sample pair. density: 0 none, 1 low, 2 high, 3 all equal,
+// 4 one sample constant, 5 sparse (distinct values with one to three
+// coincidences, the shape of real measurements: many ranks, few ties).
 func c03Pair(rng *mon.Rand, n1, n2, density int) ([]float64, []float64) {
 	N := n1 + n2
 	var pool func() float64
@@ -353,6 +363,17 @@ func c03Pair(rng *mon.Rand, n1, n2, density int) ([]float64, []float64) {
 	case 3:
 		v := rng.Uniform(-5, 5)
 		pool = func() float64 { return v }
+	case 5:
+		vals := incValues(rng, N)
+		rng.ShuffleF(vals)
+		for k := 1 + rng.Intn(3); k > 0 && N > 1; k-- {
+			vals[rng.Intn(N)] = vals[rng.Intn(N)] // within or across the samples
+		}
+		x1 := append([]float64(nil), vals[:n1]...)
+		x2 := append([]float64(nil), vals[n1:]...)
+		flipZeros(rng, x1)
+		flipZeros(rng, x2)
+		return x1, x2
 	default:
 		vals := incValues(rng, 6)
 		x1, x2 := make([]float64, n1), make([]float64, n2)
@@ -392,15 +413,15 @@ func c03Run(r *mon.Run) {
 	}
 	defU, defT := stats.MannWhitneyExactLimit, stats.MannWhitneyTiesExactLimit
 	type cfg struct{ u, t int }
-	cfgs := []cfg{{defU, defT}, {0, 0}, {5, 3}, {64, 34}, {3, 10}, {defU, 0}}
+	cfgs := []cfg{{defU, defT}, {0, 0}, {5, 3}, {64, 34}, {3, 10}, {defU, 0}, {0, 10}}
 	for _, g := range cfgs {
 		name := fmt.Sprintf("limits(%d,%d)", g.u, g.t)
-		if g.u > 0 {
+		if g.u > 0 || g.t > 0 {
 			r.Gate(name + "/exact")
 		}
 		r.Gate(name + "/approx")
 	}
-	r.Gate("err-sample-size", "err-samples-equal/exact-path", "err-samples-equal/approx-path", "P-near-1")
+	r.Gate("err-sample-size", "err-samples-equal/exact-path", "err-samples-equal/approx-path", "P-near-1", "sparse-ties/exact", "sparse-ties/approx")
 
 	npairs := r.Pick(500, 5000)
 	for ci, g := range cfgs {
@@ -412,7 +433,7 @@ func c03Run(r *mon.Run) {
 		}
 		r.Parallel(class, np, func(w *mon.W, i int) {
 			rng := w.Rng
-			density := i % 5
+			density := i % 6
 			lim := g.u
 			if density != 0 {
 				lim = g.t
@@ -447,8 +468,28 @@ func c03Run(r *mon.Run) {
 			if n1+n2 > 120 && exactApplies(n1, n2, density != 0) {
 				n1, n2 = min(n1, 60), min(n2, 60)
 			}
+			if density == 5 && g.t > defT && n1 <= g.t && n2 <= g.t && n1+n2 > 2*defT {
+				// the library's tied exact distribution with this many
+				// ranks is very expensive beyond the default limit
+				n1, n2 = min(n1, defT), min(n2, defT)
+			}
 			x1, x2 := c03Pair(rng, n1, n2, density)
+			if density == 5 && n1 > 0 && n2 > 0 {
+				if _, t := pooledTies(x1, x2); t {
+					if n1 <= g.t && n2 <= g.t {
+						w.Hit("sparse-ties/exact")
+					} else {
+						w.Hit("sparse-ties/approx")
+					}
+				}
+			}
 			c03Judge(w, c03Case{X1: x1, X2: x2, LimU: g.u, LimT: g.t})
+		})
+		r.Serial(class+"/limit-variables", 1, func(w *mon.W, _ int) {
+			w.Eval("limit variables read back")
+			if stats.MannWhitneyExactLimit != g.u || stats.MannWhitneyTiesExactLimit != g.t {
+				w.Violate("limit-variable-modified", fmt.Sprintf("the public limit variables were set to (%d,%d) before the calls and read (%d,%d) after them: the library rewrote the caller's configuration", g.u, g.t, stats.MannWhitneyExactLimit, stats.MannWhitneyTiesExactLimit), c03Case{LimU: g.u, LimT: g.t})
+			}
 		})
 		if ci == 1 {
 			// everything approximate: the exhaustive small set too
